@@ -118,6 +118,27 @@ def build_T18(tree):
                                doc='validation loop body of `AnnotationGroup.__init__` for one annotation with `num_coords` points; '
                                    '`firstEqLast` = `np.array_equal(first point, last point)`'))
 
+    # ---------------- dtype acceptance
+    dt_if = None
+    for st in strip_doc(init.body):
+        if isinstance(st, ast.If) and _norm(st.test) == "coordinates.dtype.kindin('u','i')":
+            dt_if = st
+    if dt_if is None:
+        raise Unsupported("dtype block `if coordinates.dtype.kind in ('u', 'i')` not found")
+    shas.append(span_sha([dt_if]))
+
+    class Dt(ast.NodeTransformer):
+        def visit_Assign(self, node):
+            if _norm(node.targets[0]) == 'coordinates' and _norm(node.value) == 'coordinates.astype(np.float32)':
+                return ast.copy_location(ast.parse('cast32 = True').body[0], node)
+            raise Unsupported('unexpected assignment in the dtype block: ' + ast.unparse(node)[:60])
+    blk = [ast.parse('cast32 = False').body[0]] + [Dt().visit(st) for st in _fresh([dt_if])] + [ast.parse('return cast32').body[0]]
+    for s2 in blk:
+        ast.fix_missing_locations(s2)
+    out.append(translate_block(blk, 'dtypePlan', [], {'coordinates.dtype.kind': ('str', 'kind'), 'coordinates.dtype.itemsize': ('int', 'itemsize')},
+                               doc='dtype of the concatenated coordinates (numpy `kind` letter, item size in bytes): refusal, or whether the '
+                                   'array is cast to float32 before anything else (integers: the documented cast; half precision: widening)'))
+
     # ---------------- encode plan
     stmts = strip_doc(init.body)
     start = end = None
@@ -250,11 +271,19 @@ def build_T18(tree):
             if t == 'point_indices':
                 split_expr['indices'] = node.value
                 return None
+            if t == 'number_of_values':
+                split_expr['total'] = node.value
+                return None
             if t in ('decoded_coordinates_data', 'z_values', 'graphic_type', 'graphic_data', 'self._graphic_data'):
                 return None
             raise Unsupported('unexpected assignment in get_graphic_data: ' + ast.unparse(node)[:60])
 
         def visit_If(self, node):
+            if 'point_indices' in _norm(node.test):
+                if not (len(node.body) == 1 and isinstance(node.body[0], ast.Raise) and not node.orelse):
+                    raise Unsupported('index list guard changed shape')
+                split_expr['guard'] = node
+                return None
             self.generic_visit(node)
             if not node.body:
                 if _norm(node.test) == "hasattr(self,'CommonZCoordinateValue')" and not node.orelse:
@@ -281,8 +310,28 @@ def build_T18(tree):
     out.append(translate_block(blk, 'decodePlan', [('coordinate_type', 'int'), ('graphic_type', 'str')], attrs,
                                doc='`get_graphic_data` on a parsed group: (stored dimensionality, mode, sections) with mode 0 = '
                                    '`np.split` into `sections` equal parts, mode 1 = split at the indices derived from the index list'))
-    if set(split_expr) != {'split', 'indices'}:
-        raise Unsupported('index-list split expressions not found in get_graphic_data')
+    if set(split_expr) != {'split', 'indices', 'total', 'guard'}:
+        raise Unsupported('index-list split expressions / validation not found in get_graphic_data: ' + ','.join(sorted(split_expr)))
+    g = split_expr['guard']
+    clauses = g.test.values if isinstance(g.test, ast.BoolOp) and isinstance(g.test.op, ast.Or) else None
+    want = [('len(point_indices)==0', 'isEmpty'), ('point_indices[0]!=0', 'firstNotOne'),
+            ('np.any(np.diff(point_indices)<=0)', 'anyNotIncreasing'),
+            ('np.any(point_indices%stored_coordinate_dimensionality!=0)', 'anyOffBoundary'),
+            ('point_indices[-1]>=number_of_values', 'lastBeyond')]
+    if clauses is None or [_norm(c) for c in clauses] != [w for w, _ in want]:
+        raise Unsupported('index list guard is no longer the five-clause validation (empty / first / increasing / boundary / range)')
+    gsub = {ast.unparse(c): nm for c, (_, nm) in zip(clauses, want)}
+    gblk = _fresh([g], gsub) + [ast.parse('return 0').body[0]]
+    for s2 in gblk:
+        ast.fix_missing_locations(s2)
+    out.append(translate_block(gblk, 'indexListGuard', [(nm, 'bool') for _, nm in want], {},
+                               doc='validation of the stored index list (entries minus one): empty, first entry not 1, not strictly '
+                                   'increasing, an entry off a point boundary, last entry beyond the coordinate data'))
+    tblk = [ast.Return(value=split_expr['total'])]
+    ast.fix_missing_locations(tblk[0])
+    out.append(translate_block(tblk, 'indexListTotal', [('stored_coordinate_dimensionality', 'int')],
+                               {'len(decoded_coordinates_data)': ('int', 'nRows')},
+                               doc='`number_of_values`: number of stored coordinate values the index list may point into'))
     ind, spl = split_expr['indices'], split_expr['split']
     if not (isinstance(ind, ast.BinOp) and isinstance(ind.op, ast.Sub) and _norm(ind.left) == 'np.frombuffer(self.LongPrimitivePointIndexList,dtype=np.int32)'):
         raise Unsupported('point_indices is no longer frombuffer(LongPrimitivePointIndexList, int32) - c')
@@ -294,6 +343,10 @@ def build_T18(tree):
     ast.fix_missing_locations(blk[0])
     out.append(translate_block(blk, 'splitIndex', [('point_index', 'int'), ('stored_coordinate_dimensionality', 'int')], {},
                                doc='row at which `np.split` cuts for an entry of the index list'))
+    zblk = [ast.Return(value=ast.BinOp(left=ast.Name(id='point_index', ctx=ast.Load()), op=ind.op, right=ind.right))]
+    ast.fix_missing_locations(zblk[0])
+    out.append(translate_block(zblk, 'pointIndexZero', [('point_index', 'int')], {},
+                               doc='`point_indices`: a stored (one-based) entry made zero-based'))
     out.append(f'/-- `[k:]`: entries of the index list that are not used as cuts -/\ndef splitDropFirst : Nat := {int(spl.slice.lower.value)}')
 
     # ---------------- get_coordinates
